@@ -28,6 +28,9 @@ type Ctx struct {
 type Handler struct {
 	Name   string `json:"name"`
 	Status int    `json:"status"`
+	// Mode: how a failing handler fails: "return" (return N), "exit" (exit N), "midway" (a failing command
+	// followed by more commands: strict mode must abort the handler there), "last" (failing last command).
+	Mode string `json:"mode,omitempty"`
 }
 
 type Case struct {
@@ -115,10 +118,12 @@ func gen(t *rapid.T) Case {
 		}
 		seen[name] = true
 		st := 0
-		if rapid.IntRange(0, 5).Draw(t, "fail") == 0 {
+		mode := ""
+		if rapid.IntRange(0, 4).Draw(t, "fail") == 0 {
 			st = rapid.SampledFrom([]int{1, 2, 42}).Draw(t, "status")
+			mode = rapid.SampledFrom([]string{"return", "return", "exit", "midway", "midway", "last"}).Draw(t, "mode")
 		}
-		c.Handlers = append(c.Handlers, Handler{Name: name, Status: st})
+		c.Handlers = append(c.Handlers, Handler{Name: name, Status: st, Mode: mode})
 	}
 	for _, x := range c.Contexts {
 		for _, cand := range candidates(x) {
@@ -198,7 +203,21 @@ func runCase(c Case) (ev.Info, error) {
 	defined := map[string]int{}
 	for _, h := range c.Handlers {
 		defined[h.Name] = h.Status
-		fmt.Fprintf(&sb, "function %s() { echo \"%s|${BINDING_CONTEXT_CURRENT_INDEX}|$(context::jq -r .binding)\" >> %s; return %d; }\n", h.Name, h.Name, logPath, h.Status)
+		logLine := fmt.Sprintf("echo \"%s|${BINDING_CONTEXT_CURRENT_INDEX}|$(context::jq -r .binding)\" >> %s", h.Name, logPath)
+		after := fmt.Sprintf("echo \"%s|AFTER-FAILED-COMMAND\" >> %s", h.Name, logPath)
+		switch {
+		case h.Status == 0:
+			fmt.Fprintf(&sb, "function %s() { %s; return 0; }\n", h.Name, logLine)
+		case h.Mode == "exit":
+			fmt.Fprintf(&sb, "function %s() { %s; exit %d; }\n", h.Name, logLine, h.Status)
+		case h.Mode == "midway":
+			// a command fails in the middle of the handler: under strict mode nothing after it may run
+			fmt.Fprintf(&sb, "function %s() { %s; (exit %d); %s; return 0; }\n", h.Name, logLine, h.Status, after)
+		case h.Mode == "last":
+			fmt.Fprintf(&sb, "function %s() { %s; (exit %d); }\n", h.Name, logLine, h.Status)
+		default:
+			fmt.Fprintf(&sb, "function %s() { %s; return %d; }\n", h.Name, logLine, h.Status)
+		}
 	}
 	sb.WriteString("hook::run \"$@\"\n")
 	hookPath := filepath.Join(dir, "hook.sh")
